@@ -68,7 +68,12 @@ def run_impl(case: dict) -> dict:
             rows_ = [{"unique_id": ids[i], "v": "x"} for i in node_order if sds[i] == nm]
             frames.append(impl.typed_frame(rows_, {"unique_id": idt, "v": "str"}))
         settings = SettingsCreator(link_type=link_type, comparisons=[], blocking_rules_to_generate_predictions=[])
-        linker = Linker(frames if len(frames) > 1 else frames[0], settings, api, input_table_aliases=names if len(frames) > 1 else None)
+        if len(names) > 1 and case.get("layout") == "concat":
+            # ONE pre-concatenated input table that carries the source_dataset column itself (a supported input shape)
+            rows_ = [{"unique_id": ids[i], "source_dataset": sds[i], "v": "x"} for i in node_order]
+            linker = Linker(impl.typed_frame(rows_, {"unique_id": idt, "source_dataset": "str", "v": "str"}), settings, api)
+        else:
+            linker = Linker(frames if len(frames) > 1 else frames[0], settings, api, input_table_aliases=names if len(frames) > 1 else None)
         if len(names) == 1:
             erows = [{"unique_id_l": ids[a], "unique_id_r": ids[b], "match_probability": p} for a, b, p in edges]
             types = {"unique_id_l": idt, "unique_id_r": idt, "match_probability": "float"}
@@ -266,6 +271,7 @@ def decorate(rng: random.Random, n: int, pairs, *, engine, entry, order="random"
         case["sds"] = sds
         if len(set(sds)) > 1:
             case["link_type"] = rng.choice(["link_and_dedupe", "link_only"])
+            case["layout"] = "concat" if rng.random() < 0.35 else "tables"
     return case
 
 
@@ -345,16 +351,22 @@ def compare(ctx: core.Ctx, cases: list[dict], drv: core.Driver, label="corr"):
         ctx.count("entry", c["entry"])
         ctx.count("n_nodes", "0-4" if n <= 4 else "5-8" if n <= 8 else "9-40" if n <= 40 else "41-300" if n <= 300 else ">300")
         ctx.count("threshold", "none" if c.get("thr") is None else c.get("thr_kind"))
-        ctx.count("idtype", c.get("idtype"))
+        ctx.count("idtype", c.get("idtype")); ctx.count("linker_input_layout", c.get("layout", "n/a"))
         if core.impl_error(r):
             ctx.count("impl_error", r["__error__"])
             problems.append((c, f"real code raised {r['__error__']}: {r['text'][:300]}", True, r))
             continue
-        if "error" in m:
-            raise RuntimeError(f"model driver error: {m['error']}")
+        if "error" in m and ctx.lean.ok:
+            raise core.HarnessError(f"model driver error: {m['error']}")
         ctx.count("iterations", len(r["trace"]) if len(r["trace"]) < 6 else "6-20" if len(r["trace"]) <= 20 else ">20")
         fragile = is_threshold_fragile(c)
         verdict = None if fragile else oracle_verdict(c, r["rows"])
+        if "error" in m:
+            # translated part of the model not regenerable from the current source (a broken obligation already): oracle only
+            ctx.count("model_unavailable", m["error"][:80])
+            if verdict is not None:
+                problems.append((c, verdict, True, r))
+            continue
         # model output is in rank space
         mrows = sorted((order[a], order[b]) for a, b in m["clusters"])
         if verdict is not None:
